@@ -1071,30 +1071,83 @@ func (c *c02) lebFacts() {
 			ru.Undecided(name+":overflow", l.pos, fmt.Sprintf("%d error returns (expected the one overflow error)", len(guards)))
 			continue
 		}
+		if strings.Contains(guards[0], " ") || guards[0] != "" {
+			// keep g for the signed form below
+		}
 		g := guards[0]
 		if !signed {
 			l.successIs("value", next, "value returned")
-			// form: +(!= B 0) +(>= S G)
-			m := regexp.MustCompile(`^\+\(!= 0 B\) \+\((>=|>) S (\d+)\)$`).FindStringSubmatch(g)
-			if m == nil {
-				ru.Undecided(name+":overflow", l.pos, "overflow guard is not of the form shift >= G && b != 0: "+g)
+			// The guard may be any boolean combination of comparisons of the shift and of the byte (or
+			// its payload) with constants. It is decided as a set: for every reachable shift k*step
+			// and every byte value, the error exit must be taken exactly when the payload does not
+			// fit below bit 64 at that shift (at shift 63 only payload bit 0 fits, beyond 63 nothing).
+			var errBlock *ssa.BasicBlock
+			for _, r := range l.returns() {
+				if len(r.res) == 2 && r.res[1] != "nil" {
+					errBlock = r.b
+				}
+			}
+			paths, perr := c02ErrPaths(l, b.Block(), errBlock)
+			if perr != "" {
+				ru.Undecided(name+":overflow", l.pos, "overflow guard not decidable: "+perr)
 				continue
 			}
-			G, _ := strconv.Atoi(m[2])
-			if m[1] == ">" {
-				G++
+			maxC := 0
+			for _, p := range paths {
+				for _, lit := range p {
+					for _, k := range lit.consts {
+						if k > maxC && k < 1<<20 {
+							maxC = k
+						}
+					}
+				}
 			}
-			// shifts are k*step; unchecked shifts are those < G; the largest must keep its 7 bits inside W
-			maxUnchecked := ((G - 1) / step) * step
-			if G <= 0 {
-				maxUnchecked = -step
+			top := 2 * W
+			if maxC+2*step > top {
+				top = maxC + 2*step
 			}
-			ru.Check(maxUnchecked+step <= W, name+":overflow", l.pos, fmt.Sprintf("groups at shift >= %d must be zero; largest unchecked group ends at bit %d", G, maxUnchecked+step-1),
-				fmt.Sprintf("overflow guard shift >= %d leaves the group at shift %d unchecked: its payload bits %d..%d lie beyond bit %d and are silently dropped", G, maxUnchecked, W, maxUnchecked+step-1, W-1))
-			// the guard is placed before the accumulate (same iteration): error block reached from the U8 block without passing the OR
-			// completeness: every value below 2^W must be readable
-			ru.Check(maxUnchecked+step >= W, name+":range", l.pos, "all 64-bit values readable",
-				fmt.Sprintf("overflow guard (shift >= %d && b != 0) rejects every encoding with a bit at position >= %d: values 2^%d..2^%d-1 are valid uint64 LEB128 but fail with an overflow error", G, maxUnchecked+step, maxUnchecked+step, W))
+			unsound, overstrict := "", ""
+			bad := ""
+			for sh := 0; sh <= top && bad == ""; sh += step {
+				for bv := 0; bv < 256; bv++ {
+					rejected := false
+					for _, p := range paths {
+						all := true
+						for _, lit := range p {
+							v, ok := lit.eval(sh, bv)
+							if !ok {
+								bad = lit.sx
+							}
+							if v != lit.pos {
+								all = false
+								break
+							}
+						}
+						if all {
+							rejected = true
+							break
+						}
+					}
+					pl := bv & mask
+					fits := pl == 0 || sh+bitLen(pl) <= W
+					if !fits && !rejected && unsound == "" {
+						unsound = fmt.Sprintf("at shift %d the byte %#02x (payload %#02x) is accepted although its payload reaches bit %d: bits beyond bit %d are silently dropped", sh, bv, pl, sh+bitLen(pl)-1, W-1)
+					}
+					if fits && rejected && overstrict == "" {
+						overstrict = fmt.Sprintf("at shift %d the byte %#02x (payload %#02x) is rejected although its payload fits below bit %d", sh, bv, pl, W)
+						if pl != 0 {
+							overstrict += fmt.Sprintf(": values with bit %d set are valid uint64 LEB128 but fail with an overflow error", sh+bitLen(pl)-1)
+						}
+					}
+				}
+			}
+			if bad != "" {
+				ru.Undecided(name+":overflow", l.pos, "overflow guard contains a condition that is not a comparison of the shift / the byte with constants: "+bad)
+				continue
+			}
+			ru.Check(unsound == "", name+":overflow", l.pos, fmt.Sprintf("every (shift, byte) whose payload does not fit in %d bits takes the error exit (shifts 0..%d step %d x 256 bytes)", W, top, step), unsound)
+			ru.Check(overstrict == "", name+":range", l.pos, "every payload that fits is accepted: all 64-bit values are readable", overstrict)
+			_ = g
 		} else {
 			// +(!= 0 B) +(!= 127 B) +(== S 63)  (sorted)
 			m := regexp.MustCompile(`^\+\(!= 0 B\) \+\(!= (\d+) B\) \+\(== (\d+) S\)$`).FindStringSubmatch(g)
@@ -1147,6 +1200,134 @@ func (c *c02) lebFacts() {
 			}
 		}
 	}
+}
+
+func bitLen(x int) int {
+	n := 0
+	for x > 0 {
+		n++
+		x >>= 1
+	}
+	return n
+}
+
+// c02Lit is one branch condition on a path: a comparison over S (the shift), B (the byte) and constants.
+type c02Lit struct {
+	sx     string
+	pos    bool
+	consts []int
+}
+
+// eval decides the comparison for concrete values of the two symbols (set semantics of the guard).
+func (t c02Lit) eval(s, b int) (bool, bool) {
+	toks := strings.Fields(strings.NewReplacer("(", " ( ", ")", " ) ").Replace(t.sx))
+	i := 0
+	var atom func() (int, bool)
+	atom = func() (int, bool) {
+		if i >= len(toks) {
+			return 0, false
+		}
+		switch tk := toks[i]; tk {
+		case "S":
+			i++
+			return s, true
+		case "B":
+			i++
+			return b, true
+		case "(":
+			if i+1 < len(toks) && toks[i+1] == "&" {
+				i += 2
+				x, ok1 := atom()
+				y, ok2 := atom()
+				if !ok1 || !ok2 || i >= len(toks) || toks[i] != ")" {
+					return 0, false
+				}
+				i++
+				return x & y, true
+			}
+			return 0, false
+		default:
+			n, err := strconv.Atoi(tk)
+			if err != nil {
+				return 0, false
+			}
+			i++
+			return n, true
+		}
+	}
+	if len(toks) < 5 || toks[0] != "(" {
+		return false, false
+	}
+	op := toks[1]
+	i = 2
+	x, ok1 := atom()
+	y, ok2 := atom()
+	if !ok1 || !ok2 || i != len(toks)-1 || toks[i] != ")" {
+		return false, false
+	}
+	switch op {
+	case ">":
+		return x > y, true
+	case ">=":
+		return x >= y, true
+	case "==":
+		return x == y, true
+	case "!=":
+		return x != y, true
+	}
+	return false, false
+}
+
+// c02ErrPaths enumerates the branch paths from the loop header to the error exit; blocks on the way
+// may only compute and branch.
+func c02ErrPaths(l *c02Lf, header, errBlock *ssa.BasicBlock) ([][]c02Lit, string) {
+	if errBlock == nil {
+		return nil, "no error exit"
+	}
+	var out [][]c02Lit
+	msg := ""
+	reNum := regexp.MustCompile(`\b\d+\b`)
+	var walk func(b *ssa.BasicBlock, path []c02Lit, depth int)
+	walk = func(b *ssa.BasicBlock, path []c02Lit, depth int) {
+		if depth > 12 {
+			msg = "guard too deep"
+			return
+		}
+		if b == errBlock {
+			out = append(out, append([]c02Lit{}, path...))
+			return
+		}
+		if b != header {
+			for _, ins := range b.Instrs {
+				switch ins.(type) {
+				case *ssa.BinOp, *ssa.UnOp, *ssa.Convert, *ssa.ChangeType, *ssa.If, *ssa.DebugRef:
+				default:
+					return // not part of the guard: this path accepts the byte
+				}
+			}
+		}
+		ifi, ok := b.Instrs[len(b.Instrs)-1].(*ssa.If)
+		if !ok {
+			return
+		}
+		g := fw.Guard{Cond: ifi.Cond, True: true}.Normalize()
+		sx := l.env.Of(g.Cond)
+		var ks []int
+		for _, m := range reNum.FindAllString(sx, -1) {
+			k, _ := strconv.Atoi(m)
+			ks = append(ks, k)
+		}
+		walk(b.Succs[0], append(path, c02Lit{sx, g.True, ks}), depth+1)
+		walk(b.Succs[1], append(path, c02Lit{sx, !g.True, ks}), depth+1)
+	}
+	walk(header, nil, 0)
+	if msg != "" {
+		return nil, msg
+	}
+	if len(out) == 0 {
+		return nil, "the error exit is not reached by branching on the shift and the byte directly after the read"
+	}
+	return out, ""
 }
 
 // ---------------------------------------------------------------------------
@@ -1605,7 +1786,9 @@ func init() {
 	ctl("c02-guard-uint64", "C02.guard", dc, "if nBits < 0 || nBits > 64 {\n		return 0, fmt.Errorf(\"nBits must be 0-64 (%d)\", nBits)", "if nBits < 0 || nBits > 65 {\n		return 0, fmt.Errorf(\"nBits must be 0-64 (%d)\", nBits)", "TryUintBits:bounds")
 	ctl("c02-guard-signed", "C02.guard", rd, "	if nBits < 1 {\n		return 0, fmt.Errorf(\"trySEndian nBits must be >= 1 (%d)\", nBits)", "	if nBits < 0 {\n		return 0, fmt.Errorf(\"trySEndian nBits must be >= 1 (%d)\", nBits)", "trySEndian:bounds")
 	ctl("c02-guard-left", "C02.guard", rd, "	if int64(nBytes) > bytesLeft {\n		return \"\", fmt.Errorf(\"tryText nBytes %d outside buffer, %d bytes left\", nBytes, bytesLeft)\n	}", "	if int64(nBytes) > bytesLeft*8 {\n		return \"\", fmt.Errorf(\"tryText nBytes %d outside buffer, %d bytes left\", nBytes, bytesLeft)\n	}", "tryText:left")
-	ctl("c02-leb-guard", "C02.leb", rd, "if shift >= 63 && b != 0 {", "if shift > 63 && b != 0 {", "tryULEB128:overflow")
+	ctl("c02-leb-guard", "C02.leb", rd, "(shift > 63 && b&0b01111111 != 0) {", "(shift > 70 && b&0b01111111 != 0) {", "tryULEB128:overflow")
+	ctl("c02-leb-guard63", "C02.leb", rd, "if (shift == 63 && b&0b01111111 > 1) ||", "if (shift == 63 && b&0b01111111 > 3) ||", "tryULEB128:overflow")
+	ctl("c02-leb-overstrict", "C02.leb", rd, "if (shift == 63 && b&0b01111111 > 1) || (shift > 63 && b&0b01111111 != 0) {", "if shift >= 63 && b != 0 {", "tryULEB128:range")
 	ctl("c02-leb-mask", "C02.leb", rd, "result |= int64(b&0x7f) << shift", "result |= int64(b&0x3f) << shift", "trySLEB128")
 	ctl("c02-leb-signbit", "C02.leb", rd, "if shift < n && (b&0x40) == 0x40 {", "if shift < n && (b&0x80) == 0x80 {", "trySLEB128:sign-bit")
 	ctl("c02-float-swap", "C02.float", rd, "return float64(math.Float32frombits(binary.BigEndian.Uint32(b))), nil", "return float64(math.Float32frombits(binary.LittleEndian.Uint32(b))), nil", "tryFEndian:width32")
